@@ -1070,12 +1070,10 @@ fn document(p: &mut P<'_>, defs: &mut Defs) -> R<()> {
         p.i += 3;
         p.layout.has_bom = true;
     }
-    let mut last = LastLine::Trivia;
-    let mut ended_nl = false;
+    let mut last;
     loop {
         // expression = ws [comment] / ws keyval ws [comment] / ws table ws [comment]
         last = LastLine::Trivia;
-        ended_nl = false;
         p.ws();
         match p.peek() {
             None => break,
@@ -1128,9 +1126,7 @@ fn document(p: &mut P<'_>, defs: &mut Defs) -> R<()> {
         if !p.newline() {
             return rej(p.i, "expected newline or end of input after expression");
         }
-        ended_nl = true;
     }
-    let _ = ended_nl;
     defs.resolve(&mut p.layout);
     p.layout.last_line = Some(last);
     p.layout.ends_with_newline = p.s.ends_with(b"\n");
